@@ -101,6 +101,7 @@ class World:
         self.fired = {}
         self.log = []
         self.last_progress_ops = 0
+        self.bystanders = [_Bystander(i) for i in range(int(plan.get("bystanders", 0) or 0))]
 
     # the two names patched into nucs.solvers.multiprocessing_solver
     def Process(self, group=None, target=None, name=None, args=(), kwargs=None, daemon=None):
@@ -112,6 +113,14 @@ class World:
         q = SimQueue(self)
         self.queues.append(q)
         return q
+
+    def active_children(self):
+        """multiprocessing.active_children(): every living child of the CALLING process - this call's workers that
+        are still alive, plus whatever else the application owns (plan['bystanders']: an unrelated Process or Pool
+        worker, the workers of an earlier enumeration that was abandoned and sit blocked on a full pipe)."""
+        self.tick()
+        live = [p for p in self.procs if p.started and p._alive_now()]
+        return live + self.bystanders
 
     def tick(self):
         """Every queue / process operation of the parent costs `opcost` virtual milliseconds (seeded per run): in a
@@ -125,6 +134,26 @@ class World:
 
     def progress(self):
         self.last_progress_ops = self.ops
+
+
+class _Bystander:
+    """A living child of the caller that has nothing to do with the call under test."""
+
+    def __init__(self, i):
+        self.name = f"Bystander-{i}"
+        self.pid = 900 + i
+        self.daemon = False
+        self.exitcode = None
+
+    def is_alive(self):
+        return True
+
+    def join(self, timeout=None):
+        if timeout is None:
+            raise SimDeadlock("join() on a child of the application that never exits")
+
+    def __getattr__(self, name):
+        raise HarnessUnsupported(f"Process.{name} is not modelled for bystander children")
 
 
 class SimProcess:
@@ -180,13 +209,16 @@ class SimProcess:
             return False
         return self.queue is not None and self.queue.buffered_in_producer(self.index)
 
-    def is_alive(self):
-        self.world.tick()
+    def _alive_now(self):
         if not self.started:
             return False
         if self.exit_time is None or self.world.now < self.exit_time:
             return True
         return self.blocked_flushing()
+
+    def is_alive(self):
+        self.world.tick()
+        return self._alive_now()
 
     @property
     def exitcode(self):
@@ -453,6 +485,20 @@ class patched:
         self.saved_time = getattr(M, "time", None)
         if self.saved_time is not None:
             M.time = VirtualTime(self.world)
+        # the children of the calling process are part of the simulated deployment too
+        import multiprocessing as _mp
+        import multiprocessing.process as _mpp
+
+        self.saved_ac = [(_mp, _mp.active_children), (_mpp, _mpp.active_children)]
+        _mp.active_children = self.world.active_children
+        _mpp.active_children = self.world.active_children
+        if hasattr(M, "active_children"):
+            self.saved["active_children"] = M.active_children
+            M.active_children = self.world.active_children
+        for alias in ("multiprocessing", "mp"):
+            mod = getattr(M, alias, None)
+            if mod is not None and mod is not _mp and hasattr(mod, "active_children"):
+                raise HarnessUnsupported(f"{alias}.active_children reached through an unexpected module object")
         return self.world
 
     def __exit__(self, *a):
@@ -460,6 +506,8 @@ class patched:
             setattr(self.M, k, v)
         if self.saved_time is not None:
             self.M.time = self.saved_time
+        for mod, f in self.saved_ac:
+            mod.active_children = f
         return False
 
 
